@@ -33,7 +33,8 @@ pub fn check_container_bytes(file: &[u8], log: &mut CaseLog) -> CaseResult {
 }
 
 /// Constant-size allocations of codec implementations (stream state, window buffers).
-const CODEC_SLACK: usize = 256 << 10;
+/// (bzip2's decoder state is four times the block size its stream header announces: up to 3.6 MB)
+const CODEC_SLACK: usize = 4 << 20;
 
 fn alloc_bound(input_len: usize) -> usize {
     limit().max(64 * input_len) + 4096
@@ -105,7 +106,9 @@ pub fn check_datum(sub: &Subject, input: &[u8], log: &mut CaseLog) -> CaseResult
     // every array or map may hold as many zero-width items as the limit allows, and the input can
     // open at most one collection per byte: the property's bound is one in BOTH the input size and
     // the limit (an unbounded loop still exceeds it at once)
-    let budget = 8 * input.len() as u64 + 4096 + (limit() as u64).saturating_mul(input.len() as u64 + 1);
+    // ... and every item is a tree of at most as many elements as the schema has nodes
+    let nodes = 1 + sub.text.matches('{').count() as u64 + sub.text.matches('"').count() as u64 / 2;
+    let budget = (8 * input.len() as u64 + 4096 + (limit() as u64).saturating_mul(input.len() as u64 + 1)).saturating_mul(nodes);
     for (name, which) in [("read_deser<any>", 0), ("read_deser<typed>", 1)] {
         log.sub_evals += 1;
         dynserde::reset_work(budget);
@@ -189,7 +192,9 @@ pub fn case_exhaustive(c: &mut Choices, log: &mut CaseLog) -> CaseResult {
 fn read_container(file: &[u8], entry: &str, schema_text: &str, log: &mut CaseLog) -> CaseResult {
     for deser in [false, true] {
         log.sub_evals += 1;
-        let budget = 8 * file.len() as u64 + limit() as u64 + 4096;
+        // objects: every block may declare as many (zero-width) objects as the limit allows, and a
+        // block takes at least 18 bytes of the file
+        let budget = 8 * file.len() as u64 + 4096 + (limit() as u64).saturating_mul(file.len() as u64 / 18 + 1);
         // the number of OBJECTS is bounded by the budget; each object is a tree of at most as many
         // elements as its schema has nodes (the schema is part of the file): visited elements are
         // bounded by objects x schema nodes
